@@ -890,6 +890,10 @@ func c14JudgeBanner(c *c14BannerCase) c14Result {
 	hdrDiff := c14HeaderDiff(direct.Header, via.Header)
 	sameAll := sameBody && direct.Status == via.Status && len(hdrDiff) == 0
 	frameProblem, frameFlags := c14FrameCheck(c, wantURLs, via)
+	if frameProblem == "" && len(direct.body) >= 24 && bytes.Contains(via.body, direct.body) {
+		// the frame page embeds the requested URL; it does not carry the backend's document along with it
+		frameProblem = "frame-followed-by-original-document"
+	}
 	// a frame whose only fault is that a URL with HTML-special characters was
 	// pasted into the src attribute unescaped gets its own signature
 	unescaped := frameProblem == "frame-missing-url" && (c.URLClass == "quote" || c.URLClass == "entity") &&
